@@ -1,16 +1,30 @@
 #!/bin/bash
-# tools/run_seeded.sh <seeded-id> [tier]  — apply seeded/<id>/patch.diff to /repo, run the property's
-# check, undo the patch.  Refuses to run when /repo has uncommitted changes.
+# tools/run_seeded.sh [--scratch] <seeded-id> [tier]
+#   default: apply seeded/<id>/patch.diff to /repo, run the property's check, undo the patch
+#            (refuses when /repo has uncommitted changes);
+#   --scratch: apply it to a throw-away worktree of /repo's HEAD and run the check with
+#            VERIF_REPO pointing there (development, does not disturb other users of /repo).
 set -u
 cd "$(dirname "$0")/.."
+scratch=0; if [ "$1" = "--scratch" ]; then scratch=1; shift; fi
 id=$1; tier=${2:-quick}
-d=seeded/$id
+d=$(pwd)/seeded/$id
 prop=$(python3 -c "import json;print(json.load(open('$d/meta.json'))['property'])")
-if [ -n "$(git -C /repo status --porcelain)" ]; then echo "/repo is not clean"; exit 3; fi
-git -C /repo apply "$d/patch.diff" || { echo "patch does not apply"; exit 3; }
-trap 'git -C /repo checkout -- . ; git -C /repo clean -fdq -- src' EXIT
-./check "$prop" --tier "$tier" > "build/seeded_$id.log" 2>&1
-rc=$?
+if [ $scratch = 1 ]; then
+  wt=/tmp/seedrun_$id
+  git -C /repo worktree remove --force "$wt" 2>/dev/null
+  git -C /repo worktree add --detach "$wt" HEAD -q || exit 3
+  trap 'git -C /repo worktree remove --force "$wt"' EXIT
+  git -C "$wt" apply "$d/patch.diff" || { echo "patch does not apply"; exit 3; }
+  VERIF_REPO=$wt ./check "$prop" --tier "$tier" > "build/seeded_$id.log" 2>&1
+  rc=$?
+else
+  if [ -n "$(git -C /repo status --porcelain)" ]; then echo "/repo is not clean"; exit 3; fi
+  git -C /repo apply "$d/patch.diff" || { echo "patch does not apply"; exit 3; }
+  trap 'git -C /repo checkout -- . ; git -C /repo clean -fdq -- src' EXIT
+  ./check "$prop" --tier "$tier" > "build/seeded_$id.log" 2>&1
+  rc=$?
+fi
 grep -E "^(VIOLATION|KNOWN-FINDING|\[$prop\])" "build/seeded_$id.log" | cut -c1-220
 echo "seeded $id property=$prop exit=$rc"
 exit $rc
